@@ -413,7 +413,14 @@ func clip(s string, n int) string {
 // exec sends one request to instance x and evaluates oracles (1)-(3) and (5); it does not run the after() oracles.
 func (rn *runner) exec(x instance, d Desc, r *Req, state string, what string) (o outcome, viol []kernel.Violation, poisoned bool, exp expectation, obs []string) {
 	exp = expected(d, state, r)
+	if node, k := d.FaultOf(); k > 0 {
+		armFault(node, k)
+		rn.counters["requests_with_a_fault_point"]++
+	}
 	o = serve(x.router(), r, rn.wd)
+	if disarmFault() {
+		rn.counters["fault_points_reached"]++
+	}
 	add := func(oracle, where, detail string) {
 		viol = append(viol, kernel.Violation{Oracle: oracle, Signature: Signature(oracle, d, r, where), Detail: detail})
 	}
